@@ -152,7 +152,11 @@ def run_c09(tier):
     racc = Acc()
     nrace = cold_import_races(racc, tier)
     run.merge(racc.result())
+    lacc = Acc()
+    nlazy = lazy_global_schedules(lacc, tier)
+    run.merge(lacc.result())
     c = run.cov
+    c["first_lookup_schedules"] = nlazy
     c["cold_import_schedules"] = nrace
     c["distinct_nontrivial"] = c.get("near_misses", 0) + len(mods)
     c["rule"] = ("all index entries on disk x every applicable load_* function (exact module/class identity); index vs disk "
@@ -160,7 +164,8 @@ def run_c09(tier):
                  "max+1000 / -1, every entity type it lacks, 'nested', key+-1 when not a key, odd integers and strings - each must "
                  "raise exactly UnknownAPIKey / UnknownEntity; codegen's build_index() on the current package; and for a set of "
                  "modules x lookup functions, 2 threads looking up the same cold module with thread A paused at each of the "
-                 "import stages (registered in sys.modules / body half executed / done)")
+                 "import stages (registered in sys.modules / body half executed / done); and 2 threads performing the first lookups of a "
+                 "freshly (re)loaded kio.index with every source line of kio/index.py a scheduling point, preemption bound 1 (thorough 2)")
     c["exhaustive"] = True
     return run.finish()
 
@@ -279,6 +284,61 @@ def cold_import_races(acc, tier):
                 if had_attr is not None:
                     setattr(pkg, typ, had_attr)
     return n
+
+
+def lazy_global_schedules(acc, tier):
+    """Two threads performing the FIRST lookups of a process: kio.index is reloaded before every execution so
+    that any lazily built module-level table starts empty, and every source line of kio/index.py is a scheduling
+    point (preemption bound 1; thorough 2).  Both threads must get exactly what a sequential lookup gives."""
+    import importlib
+
+    import kio.index
+    from kio.static.constants import EntityType
+
+    from .. import sched
+
+    files = frozenset([kio.index.__file__])
+    pins = pin_apis()
+    last_api = sorted(pins)[-1]
+    lt = sorted(pins[last_api]["types"])[0]
+    ET = {"request": EntityType.request, "response": EntityType.response, "header": EntityType.header, "data": EntityType.data}
+
+    def call(name, *a):
+        def body():
+            try:
+                return ("ok", getattr(kio.index, name)(*a))
+            except Exception as e:  # noqa: BLE001
+                return ("exc", type(e).__name__)
+
+        return body
+
+    pairs = {
+        "same-entry": [call("load_request_schema", 1, 17), call("load_request_schema", 1, 17)],
+        "first-and-last-entry": [call("load_request_schema", 0, 0), call("load_entity_schema", last_api, pins[last_api]["types"][lt]["max"], ET[lt])],
+        "by-key-and-by-name": [call("load_response_schema", 3, 12), call("load_entity_module", "fetch", 17, ET["request"])],
+        "valid-and-near-miss": [call("load_entity_schema", "metadata", 12, ET["response"]), call("load_entity_schema", "metadata", 13, ET["response"])],
+        "pairing": [call("load_response_schema", 18, 3), call("load_request_schema", 18, 3)],
+    }
+    total = 0
+    for name, bodies in pairs.items():
+        importlib.reload(kio.index)
+        expected = [b() for b in bodies]
+
+        def check(ex, schedule, name=name, expected=expected):
+            acc.add("evaluations")
+            for tid, (st, v) in enumerate(ex.results):
+                got = v if st == "ok" else ("exc", repr(v))
+                if got != expected[tid]:
+                    acc.report(violation("C09", "first-lookups", f"C09/first-lookups/{'raised-' + got[1] if got[0] == 'exc' else 'wrong-result'}", name,
+                                         {"harness": name, "schedule": schedule, "thread": tid}, repr(expected[tid])[:200], repr(got)[:300],
+                                         (schedule["preemptions"], len(str(schedule)))))
+                    return
+            acc.outcome("concurrent first lookups: both threads as sequential")
+
+        st = sched.explore(lambda bodies=bodies: list(bodies), files, 1 if tier == "quick" else 2, check, (), lambda: importlib.reload(kio.index))
+        total += st["schedules"]
+    importlib.reload(kio.index)
+    return total
 
 
 def _complete(mod):
